@@ -107,7 +107,7 @@ func runOptFamily(c *runCtx) error {
 				hangErr = fmt.Errorf("case %d: hang: wait", k)
 			}
 		}
-		switch kind := r.intn(8); kind {
+		switch kind := r.intn(9); kind {
 		case 0, 1, 2: // what a finished bar shows
 			name = "final"
 			which := r.intn(5)  // 0 OnComplete(msg) 1 ClearOnComplete 2 OnAbort(msg) 3 ClearOnAbort 4 both messages
@@ -319,6 +319,42 @@ func runOptFamily(c *runCtx) error {
 				}()
 				o.p.MustAdd(3, nil)
 			}()
+		case 7: // DecoratorAverageAdjust reaches the average decorators however deeply they are wrapped
+			name = "adjust"
+			o := newOptCtl(60)
+			depth := r.intn(4)
+			old := time.Now().Add(-1000 * time.Hour)
+			var d decor.Decorator = decor.NewAverageETA(decor.ET_STYLE_HHMMSS, old, nil)
+			for j := 0; j < depth; j++ {
+				d = wrapOne((k+j)%5, d)
+			}
+			b, err := o.p.Add(1000, mpb.NopStyle().Build(), mpb.BarFillerTrim(), mpb.PrependDecorators(d))
+			cases.WriteString(fmt.Sprintf("J %d %d\n", k, depth))
+			if err != nil {
+				fail("Add returned %v", err)
+				break
+			}
+			b.SetCurrent(500)
+			// 1000 h for the first half: as many again, i.e. 40 h shown modulo 60 h
+			if err := o.frame(); err != nil {
+				hangErr = fmt.Errorf("case %d: %v", k, err)
+				break
+			}
+			before := o.buf.lastRows()
+			b.DecoratorAverageAdjust(time.Now().Add(-10 * time.Second))
+			if err := o.frame(); err != nil {
+				hangErr = fmt.Errorf("case %d: %v", k, err)
+				break
+			}
+			after := o.buf.lastRows()
+			if len(before) != 1 || !strings.HasPrefix(strings.TrimSpace(before[0]), "40:00:0") {
+				fail("average ETA of a bar half done after 1000 h shows %q, want 40:00:0x (1000 h modulo 60 h)", before)
+			}
+			if len(after) != 1 || !strings.HasPrefix(strings.TrimSpace(after[0]), "00:00:1") {
+				fail("after DecoratorAverageAdjust(now-10s) the average ETA under %d wrappers shows %q, want 00:00:1x", depth, after)
+			}
+			b.Abort(true)
+			waitP(o.p)
 		default: // WithWaitGroup: Wait first waits for the user's group
 			name = "waitgroup"
 			var wg sync.WaitGroup
